@@ -76,7 +76,9 @@ def dft2(f, alpha, shape=None, shift=(0, 0), offset=(0, 0), unitary=True, out=No
     [1] Soummer, et. al. Fast computation of Lyot-style coronagraph propagation (2007)
 
     """
-    alpha_row, alpha_col = np.broadcast_to(alpha, (2,))
+    # (as python floats: the unitary factor below would otherwise be formed in
+    # the dtype alpha happens to be stored in)
+    alpha_row, alpha_col = (float(a) for a in np.broadcast_to(alpha, (2,)))
 
     f = np.asarray(f)
     m, n = f.shape
